@@ -331,6 +331,7 @@ void sx_main(void)
 	k_order_choice = (int)sx_opt("order", 0);
 	p_delivery_done_hook = on_delivery_done;
 	p_signals_possible = 1;
+	p_lock_deliveries = (int)sx_opt("lockdeliv", 1);	/* signals may arrive while a library lock is held */
 	k_env_exclude = sx_opt("poll", 0) ? "epoll-timerfd epoll ppoll" : NULL;
 	if (sx_opt("hb", 0))
 		sx_hb_enable();
